@@ -156,3 +156,31 @@ Proof.
   - repeat constructor.
   - eexists. split; [vm_compute; reflexivity|]. vm_compute. reflexivity.
 Qed.
+
+(* ------------------------------------------------------------------ round 4: a numeral denotes its value, however it is spelled *)
+From YP Require Import Sem.NumeralSpelling.
+
+(* NUMERAL is DIGIT+: 007, 07 and 7 are the same integer.  The expression the compiler emits for a numeral evaluates to the same
+   term whatever the number of leading zeros (zeros z: z consists of characters `0`) ... *)
+Theorem C01_numeral_value_any_spelling : forall r z w, zeros z ->
+  eval_expr r (compile_expression (SNum (z ++ w)%list)) = eval_expr r (compile_expression (SNum w)).
+Proof. exact numeral_code_value. Qed.
+Print Assumptions C01_numeral_value_any_spelling.
+
+(* ... so the goal  0..0w = w  has exactly one answer, which leaves the state as it is (no error) ... *)
+Theorem C01_numeral_eq_any_spelling : forall call r z w s, zeros z ->
+  builtin call (s_ "=") [eval_expr r (compile_expression (SNum (z ++ w)%list)); eval_expr r (compile_expression (SNum w))] s
+  = Some ([s], false).
+Proof. exact numeral_eq_any_spelling. Qed.
+Print Assumptions C01_numeral_eq_any_spelling.
+
+(* ... and the goal  0..0w \= w  has none. *)
+Theorem C01_numeral_neq_any_spelling : forall call r z w s, zeros z ->
+  builtin call (s_ "\=") [eval_expr r (compile_expression (SNum (z ++ w)%list)); eval_expr r (compile_expression (SNum w))] s
+  = Some ([], false).
+Proof. exact numeral_neq_any_spelling. Qed.
+Print Assumptions C01_numeral_neq_any_spelling.
+
+Example C01_numeral_nonvacuous :
+  zeros (d "00") /\ eval_expr [] (compile_expression (SNum (d "00" ++ d "7")%list)) = TInt 7.
+Proof. split; reflexivity. Qed.
